@@ -12,7 +12,7 @@ from ..harness import Mismatch, hyp_run, impl
 ID = "C13"
 LEVEL = "exploration"
 RULE = (
-    "Exhaustive: all tree shapes over n<=4 decaying particles (multiplicities <=2, with/without a particle re-occurring below "
+    "Exhaustive: all tree shapes over n<=5 decaying particles (multiplicities <=2; for n<=4 also with a particle re-occurring below "
     "a second parent) over names containing parentheses, quotes, signs and stars, x every permutation of the sub-decay "
     "mapping, x daughter lists reversed. Hypothesis: chains with <=8 decaying particles over real EvtGen names and synthetic "
     "names with balanced parentheses, and a family of patterns {mother} ARROW {daughters} / OPEN{mother} ARROW {daughters}CLOSE "
@@ -170,8 +170,7 @@ def enum_unit(n, second, rec):
 def units(tier, seed):
     quick = tier == "quick"
     u = [{"name": f"enum-n{n}", "kind": "enum", "n": n, "second": True} for n in (1, 2, 3, 4)]
-    if not quick:
-        u.append({"name": "enum-n5", "kind": "enum", "n": 5, "second": False})
+    u.append({"name": "enum-n5", "kind": "enum", "n": 5, "second": False})
     u += [{"name": f"hyp{k:02d}", "kind": "hyp", "n": 300 if quick else 5000} for k in range(12)]
     return u
 
